@@ -145,8 +145,8 @@ def cases(E):
 
 OPTIONAL_CHECKS = {"statement_tokens_contract": ["only_malformed_shapes_are_refused_by_the_parser", "whole_statement_consumed", "one_node", "mnemonic_lower_cased", "no_suffix_no_size",
                                                  "suffix_is_the_size", "mode_denotes_the_syntax_form", "no_operand", "operand_is_the_operand_tokens", "operand_resolver"],
-                   "table_mnemonic_contract": ["supported_cell_accepted", "only_isa_instructions", "opcode_byte", "implied_is_one_byte", "operand_le"],
-                   "table_mnemonic_nosuffix_contract": ["supported_cell_accepted_nosuffix", "only_isa_instructions_nosuffix", "opcode_byte_nosuffix", "operand_le_nosuffix"],
+                   "table_mnemonic_contract": ["supported_cell_accepted", "only_isa_instructions", "opcode_byte", "implied_is_one_byte", "operand_le", "label_pass_size_is_emitted_size"],
+                   "table_mnemonic_nosuffix_contract": ["supported_cell_accepted_nosuffix", "only_isa_instructions_nosuffix", "opcode_byte_nosuffix", "operand_le_nosuffix", "label_pass_size_is_emitted_size_nosuffix"],
                    "opcode_node_size_agreement_contract": ["size_agreement"],
                    "opcode_emit_contract": ["absent_cell_refused", "refusal_only_for_long_out_of_range", "present_cell", "opcode_then_operand", "length_agreement"],
                    "emit_value_contract": ["refusal_only_for_long_out_of_range"]}
